@@ -55,6 +55,11 @@ def configs(tier, seed):
         batches.append({"name": f"batch-{i // 6}", "items": out[i : i + 6]})
     for c in runs_configs(tier):
         batches.append({"name": c["name"], "items": [c]})
+    # concrete scenarios on the real Project / registry objects (sampling; their state is not in the string-solver encoding)
+    batches.append({"name": "project-registry-save-refuses", "items": [{"name": "project-registry-save-refuses", "kind": "project", "what": "save"}]})
+    batches.append({"name": "project-nested-result-names", "items": [{"name": "project-nested-result-names", "kind": "project", "what": "nested"}]})
+    batches.append({"name": "project-nested-runs-stay-intact", "items": [{"name": "project-nested-runs-stay-intact", "kind": "project",
+                                                                          "what": "nested-intact"}]})
     return batches
 
 
@@ -287,6 +292,16 @@ def run_config(batch, rec):
                 dr.save_dataset)
     rec.assume_note("file system answers are solver booleans constrained only by consistency (not file and directory at once; "
                     "non-empty implies directory; parent-is-a-file implies target absent)")
+    if batch["items"][0]["kind"] == "project":
+        # nothing symbolic: decided by the float scenario of `replay` (FLOAT_SELFCHECK); the nested-name scenario is a known finding
+        if batch["items"][0]["what"] == "nested":
+            rec.fp_override = "runs:nested-result-name-renumbering"
+        rec.assume_note("project scenarios: concrete histories on real Project objects (sampling)")
+        rec.stats.paths += 1
+        rec.witnessed += 1
+        rec.obligations += 1
+        rec.fast += 1
+        return
     rec.each(batch["items"], lambda cfg: _run_runs(cfg, rec) if cfg["kind"] == "runs" else _run_protect(rec) if cfg["kind"] == "protect"
              else _run_item(cfg, rec))
 
@@ -317,6 +332,8 @@ def replay(data):
                     return v, d
         return False, "overwrite protection scenarios behave as documented"
     cfg = data.get("item") or data["cfg"]["items"][0]
+    if cfg.get("kind") == "project":
+        return _replay_project_save() if cfg["what"] == "save" else _replay_project_nested(only=cfg["what"])
     if cfg.get("kind") == "runs":
         return _replay_runs(dict(data, cfg=cfg))
     env = data.get("env", {})
@@ -615,6 +632,96 @@ def _replay_project_history():
             if early != "fit_run_0000":
                 return True, f"after storing run {name!r}: load_result('fit_run_0000') was read from {early!r}"
     return False, "latest-result lookups follow the history"
+
+
+def _tiny_result():
+    import dataclasses
+    import warnings as _w
+
+    from glotaran.optimization.optimize import optimize
+    from glotaran.testing.simulated_data.sequential_spectral_decay import SCHEME
+
+    with _w.catch_warnings():
+        _w.simplefilter("ignore")
+        return optimize(dataclasses.replace(SCHEME, maximum_number_function_evaluations=1), verbose=False)
+
+
+def _tree(d):
+    from pathlib import Path
+
+    return {str(p.relative_to(d)): (p.read_bytes() if p.is_file() else None) for p in Path(d).rglob("*")}
+
+
+def _replay_project_save():
+    """ProjectResultRegistry.save is a save function too: if the run folder it is about to use exists and is not empty (a
+    numbering collision, a concurrent run) it must refuse with FileExistsError and leave the existing run byte-identical."""
+    import tempfile
+    import warnings as _w
+    from pathlib import Path
+
+    from glotaran.project.project import Project
+
+    with tempfile.TemporaryDirectory() as d, _w.catch_warnings():
+        _w.simplefilter("ignore")
+        result = _tiny_result()
+        project = Project.open(Path(d) / "proj", create_if_not_exist=True)
+        reg = project._result_registry
+        reg.save("fit", result)
+        first = _tree(reg.directory)
+        if not any(k.startswith("fit_run_0000") for k in first):
+            return True, f"first stored run is not in fit_run_0000: {sorted(first)[:4]}"
+        real = reg.create_result_run_name
+        reg.create_result_run_name = lambda base_name: "fit_run_0000"  # the numbering hands out an existing run folder
+        try:
+            try:
+                reg.save("fit", result)
+                exc = None
+            except Exception as ex:  # noqa: BLE001
+                exc = ex
+        finally:
+            reg.create_result_run_name = real
+        after = _tree(reg.directory)
+        if not isinstance(exc, FileExistsError) or after != first:
+            changed = sorted(k for k in first if after.get(k) != first[k])[:4]
+            return True, (f"ProjectResultRegistry.save onto an existing, non-empty run folder: raised {exc!r}; files of the earlier run "
+                          f"changed: {changed}")
+    return False, "registry save refuses to overwrite an existing run"
+
+
+def _replay_project_nested(only="nested"):
+    """Result names with a path separator (a model in a sub folder of models/, or an explicit 'a/b'): each run gets a fresh number
+    (only='nested': reports a refused / mis-numbered run - the known finding); whatever the numbering does, an earlier run is never
+    modified (only='nested-intact': reports destruction only, under its own fingerprint)."""
+    import tempfile
+    import warnings as _w
+    from pathlib import Path
+
+    from glotaran.project.project import Project
+
+    with tempfile.TemporaryDirectory() as d, _w.catch_warnings():
+        _w.simplefilter("ignore")
+        result = _tiny_result()
+        project = Project.open(Path(d) / "proj", create_if_not_exist=True)
+        reg = project._result_registry
+        for run in range(2):
+            before = _tree(reg.directory)
+            exc = None
+            try:
+                reg.save("2024/fit", result)
+            except Exception as ex:  # noqa: BLE001
+                exc = ex
+            after = _tree(reg.directory)
+            if only == "nested-intact":
+                changed = sorted(k for k, v in before.items() if after.get(k) != v)
+                if changed:
+                    return True, f"result name '2024/fit': storing run number {run} modified files of an earlier run: {changed[:4]}"
+                continue
+            if exc is not None:
+                return True, (f"result name '2024/fit': storing run number {run} raised {type(exc).__name__} instead of using a fresh run "
+                              f"folder 2024/fit_run_{run:04} (existing folders: {sorted(k for k in before if k.endswith(('_run_0000', '_run_0001')))})")
+            if not any(k == f"2024/fit_run_{run:04}" for k in after):
+                return True, f"result name '2024/fit': run number {run} not stored under 2024/fit_run_{run:04}: {sorted(after)[:6]}"
+    return False, "nested result names are numbered like flat ones"
 
 
 def _replay_import_data():
